@@ -51,7 +51,7 @@ def cases(draw):
     spec = draw(model_specs(prof))
     c = {"spec": spec.to_json(), "law": law, "infeasible_ok": infeasible_ok,
          "a": draw(st.integers(1, 100)) / 10, "b": draw(st.integers(-50, 50)) / 10,
-         "extra_T": draw(st.integers(1, 3))}
+         "extra_T": draw(st.sampled_from([1, 2, 3, 3, 8, 10]))}
     if law == "degenerate":
         c["agents"] = draw(raw_agents(2, 6))
         c["seed"] = draw(st.integers(0, 2**31 - 1))
